@@ -412,7 +412,7 @@ class Antecedent:
                     raise SyntaxError(f"expected variable, but found logical operator '{token}'")
             index += length
         if index != len(infix):
-            raise SyntaxError(f"unexpected logical operator '{infix[index]}'")
+            raise SyntaxError(f"unexpected token '{infix[index]}'")
 
         self.expression = stack.pop()
 
